@@ -13,6 +13,57 @@ from harness import dfgen as G
 from harness import matcoq as M
 
 PROP = "C01"
+
+# Clause-by-clause map of the property (statement + quantifier of properties.jsonl) to the oracle keys that judge it
+# and the generator kinds that exercise it.  Kinds: frame (dfgen.gen_frame + vary + unlabel), family (gen_family),
+# sibling (gen_sibling), calendar (gen_calendar / calendar_sweep), malformed (gen_malformed, outside the quantifier).
+CLAUSES = [
+    # statement
+    ("entry (i, c) is the canonical encoding of df.iloc[i][c], read from the TensorFrame by name",
+     ["cell:<stype>", "cell-by-name:<stype>", "by-name-raises:*", "by-name-stype", "column-missing", "num-rows"],
+     ["frame", "family"]),
+    ("numerical: the float value", ["cell:numerical", "direct-mapper:numerical"], ["frame", "family", "sibling"]),
+    ("categorical: frequency-rank index from the column's category statistics",
+     ["cell:categorical", "direct-mapper:categorical", "sibling-cell:categorical:*"], ["frame", "sibling"]),
+    ("multicategorical: the set of such indices",
+     ["cell:multicategorical", "direct-mapper:multicategorical", "multicat-int-token-minus-one-aliases-missing"],
+     ["frame (sep / list cells, str / int tokens)"]),
+    ("numerical sequences: the value sequence", ["cell:sequence_numerical", "direct-mapper:sequence_numerical"], ["frame"]),
+    ("timestamps: seven calendar components", ["cell:timestamp", "direct-mapper:timestamp", "calendar-components"],
+     ["frame", "calendar"]),
+    ("embeddings: the given vector (also behind text_/image_embedded blocks)",
+     ["cell:embedding", "cell:text_embedded", "cell:image_embedded", "direct-mapper:embedding"], ["frame", "family"]),
+    ("missing -> NaN / -1 / empty sequence; unparseable timestamp counts as missing",
+     ["cell:*", "y-cell:*", "calendar-components"], ["frame (miss_p, nan_kind none/nan/pynan, 'garbage' cells)", "calendar"]),
+    ("the target column is encoded the same way into y", ["y-cell:<stype>", "y-missing", "sibling-cell:*"],
+     ["frame (target numerical / categorical, unlabeled rows)", "sibling (integer-coded target)"]),
+    ("string cells accepted as object or as native string dtype", ["materialize-raises:*", "cell:*"],
+     ["frame (dtype object / str for categorical and delimiter-joined multicategorical)"]),
+    # quantifier
+    ("any mixture of the stypes, >= 1 row, ties / rare / repeated values, unicode / empty strings",
+     ["cell:*"], ["frame (WORDS, weights, 1-10 rows)"]),
+    ("delimiter-joined or list-valued cells with surrounding whitespace and repeated tokens",
+     ["cell:multicategorical"], ["frame + vary (multi-char separators, unicode whitespace)"]),
+    ("ragged numeric sequences containing NaN", ["cell:sequence_numerical"], ["frame"]),
+    ("dates 1700-2200 in several explicit formats and as datetime64", ["cell:timestamp", "calendar-components"],
+     ["frame (FMTS)", "calendar", "calendar_sweep (thorough)"]),
+    ("any embedding width", ["cell:embedding"], ["frame (1-5)", "family (1, 4, 5 next to embedders of width 3 / 2)"]),
+    ("any separator / time-format configuration (str, dict, partial dict, None); every other public parameter form",
+     ["materialize-raises:*", "cache-reload", "cell:*"], ["forms (matcoq.draw_forms): see SIGNATURE"]),
+    ("statistics may come from another dataset (materialize(col_stats=), fitted converter)",
+     ["sibling-cell:*", "sibling-*-raises:*"], ["sibling"]),
+]
+# Public signature the property speaks about, and where each parameter form is drawn (histogram in stats()['forms'],
+# fail-closed in sanity()):
+#   Dataset(df, col_to_stype, target_col, split_col, col_to_sep, col_to_text_embedder_cfg, col_to_text_tokenizer_cfg,
+#           col_to_image_embedder_cfg, col_to_time_format): keyword / positional; col_to_stype order = / != frame order;
+#           split_col absent / present; col_to_sep and col_to_time_format as dict / single value / partial dict / None;
+#           embedder cfg as dict / single config (family frames).
+#   Dataset.materialize(device, path, col_stats): device None / 'cpu' / torch.device; path None / cache file (written,
+#           then re-loaded by a second dataset); col_stats None / a sibling's (sibling kind).
+#   Dataset.convert_to_tensor_frame(df): sibling kind.   TensorFrame.get_col_feat(name, return_stype=False/True).
+#   XTensorMapper(...).forward(ser, *, device): called directly on every column (direct-mapper:*), constructor
+#           arguments positional / keyword, categories as list / tuple.
 HEADER = M.HEADER
 MODEL_TARGETS = M.MODEL_TARGETS
 SHARD = 60
@@ -308,12 +359,18 @@ def oracle_sibling(case, obs):
     return None
 
 
+def with_forms(case, rng):
+    case["forms"] = M.draw_forms(rng, case)
+    return case
+
+
 def generate(rng, tier):
     n = 420 if tier == "quick" else 6000
-    cases = [vary(unlabel(G.gen_frame(rng, stypes=STYPES, target_missing=0.3), rng), rng) for _ in range(n)]
+    cases = [with_forms(vary(unlabel(G.gen_frame(rng, stypes=STYPES, target_missing=0.3), rng), rng), rng)
+             for _ in range(n)]
     cases += [gen_malformed(rng) for _ in range(n // 40)]
     cases += [gen_sibling(rng) for _ in range(n // 10)]
-    cases += [gen_family(rng) for _ in range(n // 8)]
+    cases += [with_forms(gen_family(rng), rng) for _ in range(n // 8)]
     cases += [gen_calendar(rng) for _ in range(25 if tier == "quick" else 400)]
     if tier == "thorough":
         cases += calendar_sweep(rng)
@@ -356,14 +413,30 @@ def run(case):
             return run_calendar(case)
         except Exception as ex:
             return {"ok": False, "exc": C.exc_name(ex), "msg": str(ex)[:300], "tb": C.fmt_exc()}
+    forms = case.get("forms") or {}
+    used, reloaded = {}, None
     try:
         df = malformed_df(case) if case.get("malformed") else None
-        ds, stubs = G.build_dataset(case, df=df)
+        ds, stubs, used = M.make_dataset(case, df=df, forms=forms)
         # the black box of the timestamp pipeline, recorded for the correspondence
         parsed = {c["name"]: M.parse_timestamps(ds.df, c) for c in case["cols"] if c["stype"] == "timestamp"}
-        ds.materialize()
+        dev = M.device_arg(forms.get("device"))
+        used["device"] = forms.get("device", "none")
+        used["path"] = bool(forms.get("path"))
+        if forms.get("path"):
+            import tempfile
+            with tempfile.TemporaryDirectory() as tmp:
+                path = os.path.join(tmp, "tf.pt")
+                ds.materialize(dev, path)                                  # positional form, writes the cache
+                ds2, _, _ = M.make_dataset(case, df=df, forms=forms)
+                ds2.materialize(path=path)                                 # a second dataset loads it back
+                reloaded = G.read_tf(ds2.tensor_frame)
+        elif dev is None:
+            ds.materialize()
+        else:
+            ds.materialize(device=dev)
     except Exception as ex:
-        return {"ok": False, "exc": C.exc_name(ex), "msg": str(ex)[:300], "tb": C.fmt_exc()}
+        return {"ok": False, "exc": C.exc_name(ex), "msg": str(ex)[:300], "tb": C.fmt_exc(), "used": used}
     # black box: what the user's embedders returned, cell by cell (recorded for the correspondence)
     embedded = {}
     for c in case["cols"]:
@@ -371,15 +444,68 @@ def run(case):
             w = 3 if c["stype"] == "text_embedded" else 2
             embedded[c["name"]] = [G.hash_vec(str(x), w) for batch in stubs[c["name"]].calls for x in batch]
     # every column the frame lists, read BY NAME
-    by_name = {}
+    by_name, by_name_stype = {}, {}
+    rs = bool(forms.get("return_stype"))
+    used["return_stype"] = rs
     for names in ds.tensor_frame.col_names_dict.values():
         for name in names:
             try:
-                by_name[name] = G.read_feat(ds.tensor_frame.get_col_feat(name))
+                if rs:
+                    feat, st_ = ds.tensor_frame.get_col_feat(name, return_stype=True)
+                    by_name_stype[name] = st_.value
+                else:
+                    feat = ds.tensor_frame.get_col_feat(name)
+                by_name[name] = G.read_feat(feat)
             except Exception as ex:
                 by_name[name] = {"exc": C.exc_name(ex), "msg": str(ex)[:200]}
-    return {"ok": True, "tf": G.read_tf(ds.tensor_frame), "stats": G.read_stats(ds.col_stats), "parsed": parsed,
-            "embedded": embedded, "by_name": by_name}
+    out = {"ok": True, "tf": G.read_tf(ds.tensor_frame), "stats": G.read_stats(ds.col_stats), "parsed": parsed,
+           "embedded": embedded, "by_name": by_name, "by_name_stype": by_name_stype, "used": used,
+           "direct": direct_mappers(case, ds, forms)}
+    if reloaded is not None:
+        out["reloaded"] = reloaded
+    return out
+
+
+def direct_mappers(case, ds, forms):
+    """Alternative public entry point: the TensorMapper classes called directly on df[col] with the dataset's
+    statistics (constructor arguments positional or by keyword, categories as list or tuple, device kw)."""
+    from torch_frame.data import mapper as TM
+    from torch_frame.data.stats import StatType
+    kwform = forms.get("args") == "keyword"
+    dev = M.device_arg(forms.get("device"))
+    out = {}
+    for c in case["cols"]:
+        st, name = c["stype"], c["name"]
+        try:
+            ser = ds.df[name]
+            if st == "numerical":
+                m = TM.NumericalTensorMapper()
+            elif st == "categorical":
+                cats = ds.col_stats[name][StatType.COUNT][0]
+                m = TM.CategoricalTensorMapper(categories=list(cats)) if kwform else TM.CategoricalTensorMapper(tuple(cats))
+            elif st == "multicategorical":
+                cats = ds.col_stats[name][StatType.MULTI_COUNT][0]
+                m = TM.MultiCategoricalTensorMapper(categories=cats, sep=c["sep"]) if kwform else \
+                    TM.MultiCategoricalTensorMapper(cats, c["sep"])
+            elif st == "sequence_numerical":
+                m = TM.NumericalSequenceTensorMapper()
+            elif st == "timestamp":
+                fmt = None if c["fmt"] in (None, "datetime64") else c["fmt"]
+                m = TM.TimestampTensorMapper(format=fmt) if kwform else TM.TimestampTensorMapper(fmt)
+            elif st == "embedding":
+                m = TM.EmbeddingTensorMapper()
+            else:
+                continue
+            t = m.forward(ser) if dev is None else m.forward(ser, device=dev)
+            if st in ("numerical", "categorical"):
+                out[name] = [[G.fnum(v)] for v in t.tolist()]
+            elif st == "timestamp":
+                out[name] = [list(r) for r in t.tolist()]
+            else:
+                out[name] = [[G.fnum(v) for v in t[i, 0].tolist()] for i in range(t.num_rows)]
+        except Exception as ex:
+            out[name] = {"exc": C.exc_name(ex), "msg": str(ex)[:200]}
+    return out
 
 
 KNOWN_MINUS_ONE = "multicat-int-token-minus-one-aliases-missing"
@@ -390,6 +516,13 @@ def minus_one_situation(col):
     return (col["stype"] == "multicategorical" and col["sep"] is None and
             any(isinstance(c, list) and any(isinstance(t, int) and not isinstance(t, bool) and t == -1 for t in c)
                 for c in col["cells"]))
+
+
+def G_canon(tfj):
+    out = json.loads(json.dumps(tfj))
+    if "multicategorical" in out["feats"]:
+        out["feats"]["multicategorical"] = [[sorted(c) for c in row] for row in out["feats"]["multicategorical"]]
+    return out
 
 
 def locate(tfj, col):
@@ -416,6 +549,29 @@ def oracle(case, obs):
     tfj = obs["tf"]
     if tfj["num_rows"] != case["n"]:
         return dict(key="num-rows", what=f"frame has {tfj['num_rows']} rows, DataFrame has {case['n']}")
+    if "reloaded" in obs and G_canon(obs["reloaded"]) != G_canon(tfj):
+        return dict(key="cache-reload", what="materialize(path=) of a second dataset loaded a different TensorFrame than "
+                    "the one the first dataset materialized and saved")
+    for name, st_ in obs.get("by_name_stype", {}).items():
+        col = next(c for c in case["cols"] if c["name"] == name)
+        want = {"text_embedded": "embedding", "image_embedded": "embedding"}.get(col["stype"], col["stype"])
+        if st_ != want:
+            return dict(key="by-name-stype", what=f"get_col_feat({name!r}, return_stype=True) says {st_}, the column is "
+                        f"stored under {want}")
+    for col in case["cols"]:
+        got = obs.get("direct", {}).get(col["name"])
+        if got is None or case.get("malformed"):
+            continue
+        stats = obs["stats"].get(col["name"], {})
+        if isinstance(got, dict):
+            return dict(key=f"direct-mapper-raises:{got['exc']}", what=f"{col['stype']} mapper called directly on column "
+                        f"{col['name']} raised {got['exc']}: {got['msg']}")
+        for i, cell in enumerate(col["cells"]):
+            exp = G.expected_cell(col, cell, stats)
+            if G.canon_sorted(got[i], col["stype"]) != exp:
+                return dict(key=KNOWN_MINUS_ONE if minus_one_situation(col) else f"direct-mapper:{col['stype']}",
+                            what=f"{col['stype']} mapper called directly: row {i} of column {col['name']} raw {cell!r} "
+                                 f"encoded as {got[i]}, canonical encoding is {exp}", col=col["name"], row=i)
     for col in case["cols"]:
         stats = obs["stats"].get(col["name"], {})
         if col["name"] == case["target"]:
@@ -536,6 +692,11 @@ def stats(cases, obss):
             if not (o.get("ok") and o["col_stats"]["ok"] and o["converter"]["ok"]):
                 d["raised"] += 1
             continue
+        M.count_forms(d, (o or {}).get("used"))
+        if (o or {}).get("direct"):
+            d["direct_mapper_calls"] = d.get("direct_mapper_calls", 0) + len(o["direct"])
+        if "reloaded" in (o or {}):
+            d["cache_reloads"] = d.get("cache_reloads", 0) + 1
         if c.get("family"):
             d["family"] = d.get("family", 0) + 1
             embs = [x["name"] for x in c["cols"] if x["stype"] == "embedding"]
@@ -669,6 +830,11 @@ def sanity(cases, obss):
         probs.append("sibling history with an integer-coded target never drawn")
     for k in ("multicat_sep", "multicat_list", "int_token_columns", "calendar_instants", "malformed", "sibling",
               "family", "family_embedding_after_child", "unlabeled_target_frames"):
+        if d.get(k, 0) == 0:
+            probs.append(f"{k} never drawn")
+    for k in M.missing_forms(d, extra=["cfg=single", "cfg=dict"]):
+        probs.append(f"signature form {k} never drawn")
+    for k in ("direct_mapper_calls", "cache_reloads"):
         if d.get(k, 0) == 0:
             probs.append(f"{k} never drawn")
     if d["cells"] and not (0.05 < d["missing_cells"] / d["cells"] < 0.6):
